@@ -235,6 +235,8 @@ Inductive pipeline :=
 | PShared                               (* the shared parser only *)
 | PSharedGeneric (needles : list string)(* shared parser, then [marker; comment; bracket] generic ignore or "# noqa" *)
 | PSharedGenericTs (needles : list string) (* shared parser, then [exact; marker; comment; bracket] or "// noqa" *)
+| PSharedTl (needles : list string)     (* shared parser, plus the linter's own file-level and same-line tests (collection-pipeline,
+                                           stateless-class): [file marker; file bracket; file directive; tag; word; line bracket; line directive] *)
 | POwnLine (needles : list string)      (* no shared parser: [a; b; noqa] : a and b on the line, or noqa *)
 | PNone.                                (* no inline suppression at all *)
 
@@ -257,9 +259,26 @@ Definition generic_ts (needles : list string) (noqa : string) (line : string) : 
      end
   || containsb noqa line.
 
-Definition extra_check (p : pipeline) (lines : list pline) (v : nat) : bool :=
+(* <directive>[a, b] on an already lowered line: some entry names the rule (entries trimmed and lowered) *)
+Definition tl_rules_match (line_lower directive rule_id : string) : bool :=
+  match re_bracket false directive line_lower with
+  | Some g => existsb (fun r => rule_matches rule_id (lower (strip r))) (split_on "," g)
+  | None => false
+  end.
+
+Definition tl_file_directive (n : list string) (line rule_id : string) : bool :=
+  let ll := lower line in
+  containsb (nth_str 0 n) ll && (negb (containsb (nth_str 1 n) ll) || tl_rules_match ll (nth_str 2 n) rule_id).
+
+Definition tl_line_directive (n : list string) (ll rule_id : string) : bool :=
+  containsb (nth_str 3 n) ll && containsb (nth_str 4 n) ll && (negb (containsb (nth_str 5 n) ll) || tl_rules_match ll (nth_str 6 n) rule_id).
+
+Definition extra_check (p : pipeline) (lines : list pline) (v : nat) (rule_id : string) : bool :=
   match p with
   | PShared => false
+  | PSharedTl n =>
+      existsb (fun l => tl_file_directive n (pl_text l) rule_id) (firstn header_scan_lines lines)
+      || match line_lower lines v with Some l => tl_line_directive n l rule_id | None => false end
   | PSharedGeneric n => match line_lower lines v with Some l => generic_hash n noqa_hash l | None => false end
   | PSharedGenericTs n => match line_lower lines v with Some l => generic_ts n noqa_slash l | None => false end
   | POwnLine n =>
@@ -271,10 +290,10 @@ Definition extra_check (p : pipeline) (lines : list pline) (v : nat) : bool :=
   end.
 
 Definition uses_shared (p : pipeline) : bool :=
-  match p with PShared | PSharedGeneric _ | PSharedGenericTs _ => true | _ => false end.
+  match p with PShared | PSharedGeneric _ | PSharedGenericTs _ | PSharedTl _ => true | _ => false end.
 
 Definition suppressed_pre (q : iquirks) (p : pipeline) (hdr : list string) (pls : list pline) (v : nat) (rule_id : string) : bool :=
-  (uses_shared p && should_ignore_pre q hdr pls v rule_id) || extra_check p pls v.
+  (uses_shared p && should_ignore_pre q hdr pls v rule_id) || extra_check p pls v rule_id.
 
 Definition suppressed (q : iquirks) (p : pipeline) (content : string) (v : nat) (rule_id : string) : bool :=
   let lines := lines_of q content in
